@@ -438,6 +438,68 @@ def _is_identity_conjunction(an, f) -> bool:
     return ok_field
 
 
+def arg_validated(an, fn, expr, node, form, depth=0, use_node=None):
+    """(ok, why): does *expr*, evaluated at *node*, carry only data that went through self._validate (in the shape
+    *form* asks for), or data of a proxy of the same field (fast path)?  Followed through local definitions; every
+    reaching definition must qualify on its own."""
+    from engine.defuse import reaching_defs
+    if depth > 6:
+        return False, "definition chain too long"
+    use_node = use_node or node
+
+    def guarded(e):
+        # the same-field fast path may be established where the value is used or where it was copied
+        ok, why = fast_path_guard(an, fn, use_node, e)
+        if not ok and node is not use_node:
+            ok2, why2 = fast_path_guard(an, fn, node, e)
+            if ok2:
+                return ok2, why2
+        return ok, why
+    want_elem = form in ("elem", "elem-or-iter", "key", "value")
+    want_iter = form in ("iter", "elem-or-iter", "pairs")
+    index = 0 if form == "key" else (1 if form == "value" else None)
+    if isinstance(expr, ast.IfExp):
+        a, wa = arg_validated(an, fn, expr.body, node, form, depth + 1, use_node)
+        b, wb = arg_validated(an, fn, expr.orelse, node, form, depth + 1, use_node)
+        return a and b, wa if not a else wb
+    if want_elem and index is None and _proxy_validate_call(an, fn, expr):
+        return True, "self._validate(...)"
+    if want_elem and index is not None and isinstance(expr, ast.Subscript) and isinstance(expr.slice, ast.Constant) \
+            and expr.slice.value == index and _proxy_validate_call(an, fn, expr.value):
+        return True, "component %d of self._validate(...)" % index
+    if want_iter and isinstance(expr, (ast.ListComp, ast.GeneratorExp, ast.SetComp)) and _proxy_validate_call(an, fn, expr.elt):
+        return True, "every element is self._validate(...)"
+    if want_iter and isinstance(expr, (ast.List, ast.Tuple)) and all(_proxy_validate_call(an, fn, e) for e in expr.elts):
+        return True, "literal of validated elements" if expr.elts else "empty literal"
+    if isinstance(expr, ast.Name):
+        rd = reaching_defs(fn)
+        defs = rd.reaching(node, expr.id)
+        if not defs:
+            return False, "%s has no local definition" % expr.id
+        whys = []
+        for d in defs:
+            if d.kind == "assign" and d.value is not None:
+                ok, why = arg_validated(an, fn, d.value, d.node, form, depth + 1, use_node)
+            elif d.kind == "unpack" and index is not None and d.index == index and _proxy_validate_call(an, fn, d.value):
+                ok, why = True, "component %d of self._validate(...)" % index
+            elif d.kind in ("param", "for", "with"):
+                ok, why = guarded(expr)
+            else:
+                ok, why = False, "%s comes from %s" % (expr.id, d.kind)
+            if not ok:
+                return False, why
+            whys.append(why)
+        return True, "; ".join(sorted(set(whys)))
+    if isinstance(expr, ast.BoolOp) and isinstance(expr.op, ast.Or):
+        for v in expr.values:
+            ok, why = arg_validated(an, fn, v, node, form, depth + 1, use_node)
+            if not ok:
+                return False, why
+        return True, "all alternatives validated"
+    ok, why = guarded(expr)
+    return ok, (why if ok else "%s does not derive from self._validate(...) and %s" % (ast.unparse(expr)[:40], why))
+
+
 DATA_ARGS = {
     # method -> list of (arg index, form)   form: 'elem' | 'iter' | 'elem-or-iter' | 'key' | 'value' | 'pairs'
     ("list", "__init__"): [(0, "iter")], ("list", "append"): [(0, "elem")], ("list", "extend"): [(0, "iter")],
@@ -480,38 +542,34 @@ def check_taint(ctx):
                     ctx.ob("taint", fn, call, False,
                            "keyword entries are handed to dict.%s without validation" % meth, node=node)
                     continue
-                if any(isinstance(a, ast.Starred) for a in args):
-                    ctx.ob("taint", fn, call, False, "starred arguments cannot be followed", node=node)
-                    continue
                 spec = DATA_ARGS[(base, meth)]
                 if not args and meth == "__init__":
                     ctx.ob("taint", fn, call, True, "empty initialisation carries no data", node=node,
                            nontrivial=False)
                     continue
                 ok_all, whys = True, []
+                # super().__setitem__(*self._validate(key, value)): the validated pair, in order
+                def starred_pair(e):
+                    if _proxy_validate_call(an, fn, e):
+                        return True
+                    if isinstance(e, ast.Name):
+                        srcs = value_sources(fn, e, node)
+                        return bool(srcs) and all(k == "expr" and _proxy_validate_call(an, fn, pl) for k, pl in srcs)
+                    return False
+                if len(args) == 1 and isinstance(args[0], ast.Starred) and starred_pair(args[0].value) and \
+                        [f for _, f in spec] == ["key", "value"]:
+                    ctx.ob("taint", fn, call, True, "the validated (key, value) pair is unpacked straight into the builtin", node=node)
+                    continue
+                if any(isinstance(a, ast.Starred) for a in args):
+                    ctx.ob("taint", fn, call, False, "starred arguments cannot be followed", node=node)
+                    continue
                 for idx, form in spec:
                     if idx >= len(args):
                         continue
                     a = args[idx]
-                    if form == "elem":
-                        ok = element_validated(an, fn, a, node)
-                    elif form == "iter":
-                        ok = iterable_validated(an, fn, a, node)
-                    elif form == "elem-or-iter":
-                        ok = element_validated(an, fn, a, node) or iterable_validated(an, fn, a, node)
-                    elif form == "key":
-                        ok = element_validated(an, fn, a, node, index=0)
-                    elif form == "value":
-                        ok = element_validated(an, fn, a, node, index=1)
-                    else:   # pairs
-                        ok = iterable_validated(an, fn, a, node)
-                    why = "argument %d (%s) derives from self._validate(...)" % (idx, form)
-                    if not ok:
-                        ok, why2 = fast_path_guard(an, fn, node, a)
-                        why = why2 if ok else "argument %d %s does not derive from self._validate(...) and %s" % (
-                            idx, ast.unparse(a)[:40], why2)
+                    ok, why = arg_validated(an, fn, a, node, form)
                     ok_all = ok_all and ok
-                    whys.append(why)
+                    whys.append("argument %d (%s): %s" % (idx, form, why))
                 ctx.ob("taint", fn, call, ok_all, "; ".join(whys), node=node)
     ctx.need(nsites >= 10, "fewer than 10 delegation sites to the builtin containers found (%d)" % nsites)
     ctx.count("delegation_sites", nsites)
